@@ -98,9 +98,13 @@ Proof. vm_compute. eexists. eexists. repeat split. Qed.
 SPECS["C11"] = ("""property C11: accepted deletions are permanent; deletion times never move backwards.
    Abstract store; every continuation [ops] (stores, further deletion requests in any timestamp
    order, removals, vanishes).  Reopen/rebuild are identities on the abstract state (C16).
+   CONCRETE store (DbDeletion.v, DbCovered.v): markers only grow, deleted ids and covered events are refused for
+   ever, and in every reachable state NO retrievable event is covered by an address deletion - the removal
+   scans of a deletion request (author-kind range; author-#d range filtered by kind and exact d) reach every
+   covered event the transaction can see - so an accepted address deletion is permanent in every continuation.
    Boundary: a request naming its OWN id (impossible for a correctly hashed event) marks the id
    while the request itself stays retrievable; such an event is then refused as duplicate.""",
-  DBIMP + "\nFrom Pocket Require Import DbIdInv DbIndexInv KeyOrder DbAddr DbQuerySound DbQueryComplete DbDeletion DbForeign.", [
+  DBIMP + "\nFrom Pocket Require Import DbIdInv DbIndexInv KeyOrder DbAddr DbQuerySound DbQueryComplete DbDeletion DbForeign DbCovered.", [
   ("C11_time_monotone",
    "forall st ops a t, del_time (del_addrs st) a = Some t ->\n    exists t', del_time (del_addrs (a_run ops st)) a = Some t' /\\ t <= t'",
    "deletion_time_monotone", ""),
@@ -128,6 +132,12 @@ SPECS["C11"] = ("""property C11: accepted deletions are permanent; deletion time
   ("C11_concrete_address_time_monotone",
    "forall s a t ops, naddr_is_deleted_asof s a = Some t -> exists t', naddr_is_deleted_asof (c_run ops s) a = Some t' /\\ t <= t'",
    "naddr_time_monotone", ""),
+  ("C11_concrete_no_retrievable_event_is_covered",
+   "forall ops names x a t, ops_wfe ops -> let s := c_run ops (db_init names) in\n    get_event_by_id s (e_id x) = Ok (Some x) -> addr_of x = Some a -> naddr_is_deleted_asof s a = Some t -> t < e_created x",
+   "no_retrievable_event_is_covered", "the CONCRETE store, every reachable state: an event the id lookup returns whose address carries a deletion time is strictly newer than that time"),
+  ("C11_concrete_address_deletion_permanent",
+   "forall ops names ops' x a t, ops_wfe ops -> ops_wfe ops' ->\n    let s := c_run ops (db_init names) in let s' := c_run ops' s in\n    naddr_is_deleted_asof s a = Some t -> addr_of x = Some a -> e_created x <= t ->\n    get_event_by_id s' (e_id x) <> Ok (Some x)",
+   "address_deletion_permanent", "once an address carries deletion time t, in EVERY continuation (stores, further requests in any timestamp order, removals, vanish, reopen) no event of that address created at or before t is retrievable"),
   ("C11_concrete_covered_event_refused_forever",
    "forall s a t ops e, naddr_is_deleted_asof s a = Some t -> addr_of e = Some a -> e_created e <= t ->\n    let s' := c_run ops s in\n    (snd (store_event s' e) = Err EDup \\/ snd (store_event s' e) = Err EDeleted) /\\ fst (store_event s' e) = s'",
    "covered_event_refused_forever", "the CONCRETE store, any state and any continuation: once an address carries a deletion time t, every event of that address (replaceable: kind+author; parameterized: kind+author+d) created at or before t is refused as deleted (or duplicate) by every later store, and the refusal changes nothing"),
